@@ -189,7 +189,8 @@ func (p *Parent) RunWorker(race bool, phase, shard, nshards, from int, skip []in
 	}
 	if b, e := os.ReadFile(out + ".stderr"); e == nil {
 		if len(b) > 6000 {
-			b = b[len(b)-6000:]
+			// the first lines name the fatal error, the last ones the goroutine
+			b = append(append(append([]byte(nil), b[:2000]...), "\n…\n"...), b[len(b)-4000:]...)
 		}
 		stderrTail = string(b)
 	}
@@ -289,6 +290,13 @@ func (p *Parent) shardLoop(ph Phase, phase, shard, nshards int) {
 			p.mu.Unlock()
 			p.soloDeath(ph, phase, idx, code, tail)
 			skip = append(skip, idx)
+			p.mu.Lock()
+			stop := p.aborts > maxAborts
+			p.mu.Unlock()
+			if stop {
+				p.noteOnce(fmt.Sprintf("more than %d cases killed their worker; the remaining cases of the affected shards were not run", maxAborts))
+				return
+			}
 		}
 		p.mu.Lock()
 		p.restarts++
@@ -368,6 +376,7 @@ func (p *Parent) soloDeath(ph Phase, phase, idx, code int, tail string) {
 		p.mu.Lock()
 		p.merged.Violations = append(p.merged.Violations, v)
 		p.merged.ViolCount++
+		p.aborts++
 		p.mu.Unlock()
 		return
 	}
